@@ -78,19 +78,30 @@ def _():
     except Exception as e:
         return f"<b><ruby>a<rt>b</rt></ruby></b> raises {type(e).__name__}"
 
+# ---- repaired in /repo (fixed: entries of KNOWN_FINDINGS.txt): these two must PASS
 @witness("C11", "cue-without-payload")
 def _():
-    try:
-        d = _read("WEBVTT\n\n00:01.000 --> 00:02.000\n\n00:03.000 --> 00:04.000\nx\n")
-    except Exception as e:
-        return f"cue without payload raises {type(e).__name__}"
+    cases = {"first cue": ("WEBVTT\n\n00:01.000 --> 00:02.000\n\n00:03.000 --> 00:04.000\nx\n", [(3, 4, "x")]),
+             "at end of file": ("WEBVTT\n\n00:01.000 --> 00:02.000\nx\n\n00:03.000 --> 00:04.000\n", [(1, 2, "x")]),
+             "after a cue (no stale text)": ("WEBVTT\n\n00:01.000 --> 00:02.000\n<b>first</b>\n\n00:03.000 --> 00:04.000 line:0\n\n00:05.000 --> 00:06.000\nthird\n",
+                                             [(1, 2, "first"), (5, 6, "third")]),
+             "only cue": ("WEBVTT\n\n00:01.000 --> 00:02.000\n\n", [])}
+    for name, (txt, want) in cases.items():
+        try:
+            d = _read(txt)
+        except Exception as e:
+            return f"cue without payload ({name}) raises {type(e).__name__}"
+        got = [(p.get_begin(), p.get_end(), "".join(t for t, _, _ in _texts(p))) for p in list(d.get_body())[0]]
+        if got != [(Fraction(b), Fraction(e), t) for b, e, t in want]:
+            return f"cue without payload ({name}): paragraphs {got}, expected {want}"
 
 @witness("C11", "empty-file")
 def _():
     try:
-        _read("")
+        d = _read("")
     except Exception as e:
         return f"empty file raises {type(e).__name__}"
+    if d is None or len(list(list(d.get_body())[0])) != 0: return "empty file does not read as an empty document"
 
 @witness("C11", "rt-outside-ruby")
 def _():
